@@ -87,6 +87,8 @@ where
             // Set a drop guard to ensure that the task is deallocated,
             // whether or not the output panics when dropped.
             let _drop_guard = RunOnDrop::new(|| {
+                #[cfg(nexosim_verif)]
+                crate::verif::probe_task(true);
                 dealloc(ptr as *mut u8, Layout::new::<Task<F, S, T>>());
             });
 
@@ -115,6 +117,8 @@ where
             // task.
             atomic::fence(Ordering::Acquire);
 
+            #[cfg(nexosim_verif)]
+            crate::verif::probe_task(true);
             dealloc(ptr as *mut u8, Layout::new::<Task<F, S, T>>());
         }
     });
@@ -151,6 +155,8 @@ where
         // Set a drop guard to ensure that the task is deallocated whether
         // or not the future or output panics when dropped.
         let _drop_guard = RunOnDrop::new(|| {
+            #[cfg(nexosim_verif)]
+            crate::verif::probe_task(true);
             dealloc(ptr as *mut u8, Layout::new::<Task<F, S, T>>());
         });
 
